@@ -104,10 +104,17 @@ def worker_main(check_id, infile, outfile):
         try:
             res = mod.run_case(case)
         except Exception as exc:  # harness or library raised where the check did not expect it
+            # an exception raised *inside the library* on a configuration the check drives as supported is a violation
+            # (e.g. "Walker type not supported"); one raised in the harness itself makes the run inconclusive
+            frames = traceback.extract_tb(exc.__traceback__)
+            repo_dir = os.path.join(os.path.realpath(os.environ.get("VERIF_REPO", "/repo")), "ad_afqmc")
+            own = [f for f in frames if not ("site-packages" in f.filename or "/lib/python" in f.filename)]
+            in_lib = bool(own) and os.path.realpath(own[-1].filename).startswith(repo_dir)
             res = {
                 "events": [
-                    ev("uncaught-exception", None, key="uncaught-exception",
-                       exc=type(exc).__name__, msg=str(exc)[:500],
+                    ev("library-raised-exception" if in_lib else "uncaught-exception", False if in_lib else None,
+                       key=("%s/library-exception/%s" % (check_id, type(exc).__name__)) if in_lib else "uncaught-exception",
+                       exc=type(exc).__name__, msg=str(exc)[:500], where=("%s:%d" % (own[-1].filename, own[-1].lineno)) if own else None,
                        tb=traceback.format_exc()[-1500:])
                 ],
                 "nontrivial": False,
